@@ -72,12 +72,13 @@ def model_summary(model, limit=60):
     return out
 
 
-def discharge(ob, base_axioms, timeout_s=20, seed=0, both=False, keep_model=True):
-    """ob: state.Obligation -> Verdict"""
-    t0 = time.time()
-    if z3.is_true(ob.formula):
-        return Verdict(ob.name, 'discharged', 'syntactic', 0.0, info=ob.info)
-    s = z3.Solver()
+def _solver(base_axioms, ob, timeout_s, seed, mbqi):
+    if mbqi:
+        s = z3.Solver()
+    else:
+        # SimpleSolver honours mbqi=false (the default tactic pipeline of Solver() ignores it)
+        s = z3.SimpleSolver()
+        s.set('mbqi', False)
     s.set('timeout', int(timeout_s * 1000))
     s.set('random_seed', seed)
     for ax in base_axioms:
@@ -85,39 +86,85 @@ def discharge(ob, base_axioms, timeout_s=20, seed=0, both=False, keep_model=True
     for f in ob.pc:
         s.add(f)
     s.add(z3.Not(ob.formula))
-    r = s.check()
+    return s
+
+
+def discharge(ob, base_axioms, timeout_s=20, seed=0, both=False, keep_model=True):
+    """ob: state.Obligation -> Verdict.
+
+    Stage 1: E-matching only (MBQI off).  unsat = proved.  `unknown (incomplete quantifiers)` means the
+    instantiation saturated without a contradiction: as in Boogie/Dafny this is a failed proof with a
+    candidate counter-model.  Stage 2 (MBQI, then cvc5) tries to turn it into a definite answer.  A
+    timeout in both stages is `unknown` (undecided), never a refutation.
+    """
+    t0 = time.time()
+    if z3.is_true(ob.formula):
+        return Verdict(ob.name, 'discharged', 'syntactic', 0.0, info=ob.info)
+    info = dict(ob.info)
+    s1 = _solver(base_axioms, ob, timeout_s, seed, mbqi=False)
+    r1 = s1.check(z3.Bool('!go')) if False else s1.check()
     backend = 'z3'
-    status = 'discharged' if r == z3.unsat else ('refuted' if r == z3.sat else 'unknown')
-    reason = ''
     model = None
-    if r == z3.sat and keep_model:
-        model = model_summary(s.model())
-    if status == 'unknown':
-        reason = s.reason_unknown()
-    if status == 'unknown' or both:
-        try:
-            smt2 = s.to_smt2()
-        except Exception as e:  # pragma: no cover
-            smt2 = None
-            reason += f' (no smt2 export: {e})'
-        if smt2 is not None:
-            cv, why = run_cvc5(smt2, timeout_s)
-            if status == 'unknown':
-                if cv == 'unsat':
-                    status, backend = 'discharged', 'cvc5'
-                elif cv == 'sat':
-                    status, backend = 'refuted', 'cvc5'
-                else:
-                    reason += f' | cvc5: {why}'
+    reason = ''
+    status = 'unknown'
+    saturated = False
+    if r1 == z3.unsat:
+        status = 'discharged'
+    elif r1 == z3.sat:
+        status = 'refuted'
+        info['definite'] = True
+        if keep_model:
+            model = model_summary(s1.model())
+    else:
+        reason = s1.reason_unknown()
+        saturated = 'incomplete' in reason
+        cand = None
+        if saturated and keep_model:
+            try:
+                cand = model_summary(s1.model())
+            except Exception:
+                cand = None
+        s2 = _solver(base_axioms, ob, min(timeout_s, 8) if saturated else timeout_s, seed, mbqi=True)
+        r2 = s2.check()
+        if r2 == z3.unsat:
+            status, backend = 'discharged', 'z3(mbqi)'
+        elif r2 == z3.sat:
+            status, backend = 'refuted', 'z3(mbqi)'
+            info['definite'] = True
+            if keep_model:
+                model = model_summary(s2.model())
+        else:
+            reason += ' | mbqi: ' + s2.reason_unknown()
+            cv, why = 'unknown', 'not run'
+            try:
+                cv, why = run_cvc5(s2.to_smt2(), min(timeout_s, 8) if saturated else timeout_s)
+            except Exception as e:  # pragma: no cover
+                why = str(e)
+            if cv == 'unsat':
+                status, backend = 'discharged', 'cvc5'
+            elif cv == 'sat':
+                status, backend = 'refuted', 'cvc5'
+                info['definite'] = True
+            elif saturated:
+                status = 'refuted'
+                info['definite'] = False
+                model = cand
+                reason = ('no proof: quantifier instantiation saturated with a candidate counter-model; '
+                          'MBQI and cvc5 gave no definite answer (' + reason + ')')
             else:
-                if (cv == 'unsat' and status == 'refuted') or (cv == 'sat' and status == 'discharged'):
-                    status, backend = 'unknown', 'z3+cvc5'
-                    reason = f'solvers disagree: z3={r} cvc5={cv}'
-                elif cv in ('sat', 'unsat'):
-                    backend = 'z3+cvc5'
+                reason += f' | cvc5: {why}'
+    if both and status == 'discharged' and backend == 'z3':
+        try:
+            cv, why = run_cvc5(s1.to_smt2(), timeout_s)
+            if cv == 'sat':
+                status, backend, reason = 'unknown', 'z3+cvc5', 'solvers disagree: z3=unsat cvc5=sat'
+            elif cv == 'unsat':
+                backend = 'z3+cvc5'
+        except Exception:  # pragma: no cover
+            pass
     if ob.concrete_fail and status == 'refuted':
         reason = ob.concrete_fail
-    return Verdict(ob.name, status, backend, time.time() - t0, model=model, info=ob.info, reason=reason)
+    return Verdict(ob.name, status, backend, time.time() - t0, model=model, info=info, reason=reason)
 
 
 def merge_verdicts(verdicts):
